@@ -115,10 +115,20 @@ func init() {
 		x.allocBound = x.concreteInt(args[0], "AllocBound")
 		return nil
 	})
+	rt("Param", func(x *Exec, fr *frame, args []Value) Value {
+		if x.eng.tier == "thorough" {
+			return args[2]
+		}
+		return args[1]
+	})
 	rt("Concretize", func(x *Exec, fr *frame, args []Value) Value {
 		t := args[0].(*Term)
 		return mkConst(64, x.Concretize(t, "verifrt.Concretize"))
 	})
+	rt("AllocCheck", func(x *Exec, fr *frame, args []Value) Value { return nil })
+	b2s := func(x *Exec, fr *frame, args []Value) Value { return normStr(sliceTerms(args[0])) }
+	reg("github.com/sourcegraph/zoekt/query.b2s", b2s)
+	reg("github.com/sourcegraph/zoekt.b2s", b2s)
 	rt("IsSymbolic", func(x *Exec, fr *frame, args []Value) Value { return tTrue })
 	rt("loadVector", func(x *Exec, fr *frame, args []Value) Value { return nil })
 	rt("Unsupported", func(x *Exec, fr *frame, args []Value) Value { panic(unsupported{strArg(args[0])}) })
@@ -564,7 +574,7 @@ func (x *Exec) unwrapErr(err Iface) (Iface, bool) {
 	if err.T == nil {
 		return Iface{}, false
 	}
-	m := x.eng.prog.LookupMethod(err.T, nil, "Unwrap")
+	m := x.eng.lookupMethodSafe(err.T, "Unwrap")
 	if m == nil {
 		return Iface{}, false
 	}
@@ -593,7 +603,7 @@ func intrErrorsIs(x *Exec, fr *frame, args []Value) Value {
 				return tTrue
 			}
 		}
-		if m := x.eng.prog.LookupMethod(err.T, nil, "Is"); m != nil && m.Signature.Params().Len() == 1 {
+		if m := x.eng.lookupMethodSafe(err.T, "Is"); m != nil && m.Signature.Params().Len() == 1 {
 			r := x.callFunction(fr, m, []Value{err.V, target}, nil)
 			if t, ok := r.(*Term); ok && x.Decide(t) {
 				return tTrue
@@ -650,7 +660,7 @@ func (x *Exec) nativeArg(v Value) (interface{}, bool) {
 			return nil, true
 		}
 		// error / Stringer: call the method
-		if m := x.eng.prog.LookupMethod(v.T, nil, "Error"); m != nil && m.Signature.Params().Len() == 0 {
+		if m := x.eng.lookupMethodSafe(v.T, "Error"); m != nil && m.Signature.Params().Len() == 0 {
 			if p, isPtr := v.V.(*Value); isPtr && p == nil {
 				return "<nil>", true
 			}
@@ -660,7 +670,7 @@ func (x *Exec) nativeArg(v Value) (interface{}, bool) {
 			}
 			return nil, false
 		}
-		if m := x.eng.prog.LookupMethod(v.T, nil, "String"); m != nil && m.Signature.Params().Len() == 0 && m.Signature.Results().Len() == 1 {
+		if m := x.eng.lookupMethodSafe(v.T, "String"); m != nil && m.Signature.Params().Len() == 0 && m.Signature.Results().Len() == 1 {
 			if p, isPtr := v.V.(*Value); isPtr && p == nil {
 				return "<nil>", true
 			}
@@ -1008,4 +1018,19 @@ func (x *Exec) callRTypeMethod(m *rtypeMethod, args []Value) Value {
 		return mkBool(types.Comparable(rt.T))
 	}
 	panic(unsupported{"reflect.Type." + m.name})
+}
+
+// lookupMethodSafe finds an exported method by name in T's method set (nil if absent).
+func (e *Engine) lookupMethodSafe(T types.Type, name string) *ssa.Function {
+	if T == nil || T == rtypeMarker {
+		return nil
+	}
+	ms := e.prog.MethodSets.MethodSet(T)
+	for i := 0; i < ms.Len(); i++ {
+		sel := ms.At(i)
+		if sel.Obj().Name() == name && sel.Obj().Exported() {
+			return e.prog.MethodValue(sel)
+		}
+	}
+	return nil
 }
